@@ -65,10 +65,13 @@ def case_grad(sp, tier):
     cot = {"y1": _sym("c1", s1), "y2": _sym("c2", s2)}
     ins = [["a", "b", "u"], ["b", "a"], ["u"], ["a"]][choice(4, "inputs")]
     outs = ["y1", "y2"] if choice(2, "out_order") == 0 else ["y2", "y1"]
-    res = Grad([prog[n] for n in outs], [prog[n] for n in ins])(Gradients({prog[n]: cot[n] for n in outs}))
     def cex(model):
         return dict(kind="transform", which="grad", spec=spec_json(spec), outputs=outs, inputs=ins, jac=jac_values(model, prog),
                     cot={k: cex_values(model, c=v._flat())["c"] for k, v in cot.items()})
+    try:
+        res = Grad([prog[n] for n in outs], [prog[n] for n in ins])(Gradients({prog[n]: cot[n] for n in outs}))
+    except (RuntimeError, ValueError, TypeError, IndexError, KeyError) as e:
+        return [Ob("grad_is_vector_jacobian_product", False, lambda model, e=e: dict(cex(model), raised=f"{type(e).__name__}: {e}"))]
     obs = [Ob("grad_output_type_and_keys", isinstance(res, Gradients) and set(res.keys()) == {prog[n] for n in ins}, cex)]
     for n in ins:
         exp = _vjp(prog, {k: cot[k]._flat() for k in outs}, n)
@@ -91,10 +94,14 @@ def case_jac(sp, tier):
     cot = {"y1": _sym("c1", (Bn,) + tuple(s1)), "y2": _sym("c2", (Bn,) + tuple(s2))}
     ins = [["a", "b", "u"], ["b", "a"]][choice(2, "inputs")]
     outs = ["y1", "y2"]
-    res = Jac([prog[n] for n in outs], [prog[n] for n in ins], chunk_size=k)(Jacobians({prog[n]: cot[n] for n in outs}))
     def cex(model):
         return dict(kind="transform", which="jac", spec=spec_json(spec), outputs=outs, inputs=ins, jac=jac_values(model, prog), chunk=k, batch=Bn,
                     cot={kk: cex_values(model, c=v.tolist())["c"] for kk, v in cot.items()})
+    try:
+        res = Jac([prog[n] for n in outs], [prog[n] for n in ins], chunk_size=k)(Jacobians({prog[n]: cot[n] for n in outs}))
+    except (RuntimeError, ValueError, TypeError, IndexError, KeyError) as e:
+        # every input of this family is valid (an input the outputs do not depend on has a zero Jacobian): raising is not computing the stated map
+        return [Ob("jac_is_rowwise_vector_jacobian_product", False, lambda model, e=e: dict(cex(model), raised=f"{type(e).__name__}: {e}"))]
     obs = [Ob("jac_output_type_and_keys", isinstance(res, Jacobians) and set(res.keys()) == {prog[n] for n in ins}, cex)]
     for n in ins:
         t = res[prog[n]]
